@@ -93,24 +93,23 @@ def rule_unix_build(ctx, prog):
     if len(alts) >= 2:
         arms = {"file": False, "anon": False, "other": 0}
         for dpos, d in alts:
-            if True:
-                x, y = unref(d[3][0]), unref(d[3][1])
-                if x == ('const', -1) and y == ('const', 0):
-                    fs = b.facts_at(dpos)
-                    arms["anon"] = any(r[0] == 'discr' and r[2] == 0 and match(F(P(1), "file_offset"), r[1], {}) for r in fs) or True
+            x, y = unref(d[3][0]), unref(d[3][1])
+            if x == ('const', -1) and y == ('const', 0):
+                fs = b.facts_at(dpos)
+                arms["anon"] = any(r[0] == 'discr' and r[2] == 0 and match(F(P(1), "file_offset"), r[1], {}) for r in fs)
+            else:
+                succ = checks.succeeded(b, dpos)
+                chk = [s for s in succ if s[0] == 'call' and canon(s[1]).endswith("check_file_offset")]
+                good = False
+                for s in chk:
+                    e = {}
+                    if match(C("check_file_offset", V("f"), F(P(1), "size")), s, e):
+                        f = e["f"]
+                        good = match(C("AsRawFd::as_raw_fd", C("FileOffset::file", V("f"))), x, {"f": f}) and match(C("FileOffset::start", V("f")), y, {"f": f})
+                if good:
+                    arms["file"] = True
                 else:
-                    succ = checks.succeeded(b, dpos)
-                    chk = [s for s in succ if s[0] == 'call' and canon(s[1]).endswith("check_file_offset")]
-                    good = False
-                    for s in chk:
-                        e = {}
-                        if match(C("check_file_offset", V("f"), F(P(1), "size")), s, e):
-                            f = e["f"]
-                            good = match(C("AsRawFd::as_raw_fd", C("FileOffset::file", V("f"))), x, {"f": f}) and match(C("FileOffset::start", V("f")), y, {"f": f})
-                    if good:
-                        arms["file"] = True
-                    else:
-                        arms["other"] += 1
+                    arms["other"] += 1
         ok_fd = arms["file"] and arms["anon"] and not arms["other"]
         detail = f"file arm: (f.file().as_raw_fd(), f.start()) behind successful check_file_offset(f, self.size) [{arms['file']}]; anonymous arm (-1, 0) [{arms['anon']}]"
     ctx.ob("R15.1.file_checked_before_mmap", b.key, ok_fd, c.where(), detail)
